@@ -390,3 +390,6 @@ Example encode_runes_inverse_ex :
   let s := string_of_bytes [97; 195; 169; 226; 130; 172; 240; 159; 152; 128] in
   valid_utf8 s = true /\ runes s = [97; 233; 8364; 128512] /\ string_of_runes (runes s) = s.
 Proof. vm_compute. auto. Qed.
+
+(* do not leak the div/mod pre-processing of [lia] to importers *)
+Ltac Zify.zify_post_hook ::= idtac.
